@@ -26,6 +26,12 @@ def runCase (hdr : List String) (ops : List String) : List String :=
     | some rs =>
       let sorted := rs.foldl addRule []
       ("ok " ++ ";".intercalate (sorted.map showRule)) :: runOpsWith (countStep sorted) false ops
+  | "countraw" :: rules =>
+    -- the rule slice exactly as given (the harness installs this order through reflection):
+    -- any order `sort.Slice` may leave among rules of equal period, and unsorted lists
+    match rules.mapM parseRule with
+    | none => badAll ops
+    | some rs => ("ok " ++ ";".intercalate (rs.map showRule)) :: runOpsWith (countStep rs) false ops
   | _ => badAll ops
 
 end Golib.C20
